@@ -135,6 +135,116 @@ def c12(run):
     run.exhaustive = run.tier == "thorough"
 
 
+# ------------------------------------------------------------------------------------ automata
+
+AUT_ASSUME = ["automata are dumped by calling next/is_final on one character per region of the ranges of every state "
+              "(first, last and middle character of every letter block for generated DFAs); language questions are "
+              "then exact reachability questions on finite product graphs (Dfa.tla)",
+              "state names are mapped to ids in first-mention order, the only way to relate the caller's names to "
+              "the states of the automaton returned"]
+
+
+def _sample(path, keep):
+    """keep(k, record) -> bool: thin a TLC-generated scenario file in place (quick tier)."""
+    recs = core.read_ndjson(path)
+    out = [r for k, r in enumerate(recs) if keep(k, r)]
+    core.write_ndjson(path, out)
+    return len(recs), len(out)
+
+
+@check("C13")
+def c13(run):
+    run.rule = ("behaviours = TLC-generated call sequences of the Builder state machine over states {0,1,2} and the six "
+                "labels of 0..2 (state 0: up to 2 (3 thorough) transitions in every order + default (possibly "
+                "overridden); state 1: small completion; final flags; state 2 as target only), each ending with build, "
+                "replayed under block embeddings; plus seeded random sequences over real code points with holes, "
+                "overlaps and shuffled call order; verdict classes MustReject / MustAccept / Either and, on Ok, initial "
+                "state, finals, counters and next(state, x) = SpecDelta(state, x) for every region representative; "
+                "non-trivial = distinct behaviour with >= 2 transitions")
+    run.assumptions = list(AUT_ASSUME)
+    scen = os.path.join(run.workdir, "builder_scen.ndjson")
+    full = run.tier == "thorough"
+    run.generate("MC_Builder", "MC_Builder_full.cfg" if full else "MC_Builder.cfg", scen, timeout=2400,
+                 note="every call sequence of the bounded builder model; invariants: domains consistent, accepted specs "
+                      "total, region lemma for the verdict")
+    if not full:
+        s = run.seed % 3
+        total, kept = _sample(scen, lambda k, r: r["verdict"] != "MustReject" or k % 3 == s)
+        run.extra["quick_sample"] = "all MustAccept/Either behaviours and every 3rd MustReject: %d of %d" % (kept, total)
+    out, info = _drive(run, "builder", verb="replay", sub="replay", extra=["--scen", scen], timeout=1800)
+    out2, info2 = _drive(run, "builder", sub="random")
+    nt = lambda r: sum(1 for c in r.get("calls", []) if c["op"] == "add") >= 2
+    need = {"gen_MustReject": lambda r: r.get("gen_verdict") == "MustReject",
+            "gen_MustAccept": lambda r: r.get("gen_verdict") == "MustAccept",
+            "gen_Either": lambda r: r.get("gen_verdict") == "Either",
+            "accepted": lambda r: r.get("res") == "ok", "rejected": lambda r: str(r.get("res", "")).startswith("err")}
+    run.validate("builder", os.path.join(out, "builder.ndjson"), "Trace_Automata", "Trace_Automata.cfg",
+                 ["C13:"], workers=workers(run), nontrivial=nt, need=need, timeout=3000, heap="10g")
+    run.validate("builder_random", os.path.join(out2, "builder_random.ndjson"), "Trace_Automata", "Trace_Automata.cfg",
+                 ["C13:"], workers=workers(run), nontrivial=nt, timeout=1500,
+                 need={"accepted": lambda r: r.get("res") == "ok", "rejected": lambda r: str(r.get("res", "")).startswith("err")})
+    run.exhaustive = full
+    run.extra["driver"] = [info, info2]
+
+
+def _dfa_traces(run, which):
+    scen = os.path.join(run.workdir, "dfa_scen.ndjson")
+    run.generate("MC_Dfa", "MC_Dfa.cfg", scen, timeout=1200,
+                 note="every complete DFA with <= 3 states over 2 letters; invariant: Nerode/quotient definitions agree")
+    out, info = _drive(run, "dfa", verb="replay", sub="replay", extra=["--scen", scen, "--for", which])
+    out2, info2 = _drive(run, "automata", sub="random", extra=["--for", which])
+    run.extra["driver"] = [info, info2]
+    return out, out2
+
+
+@check("C04")
+def c04(run):
+    run.rule = ("cases = every complete DFA with <= 3 states over 2 letters (TLC-generated, 5898; all-final, none-final "
+                "and unreachable parts included), built through AutomatonBuilder in three styles under block "
+                "embeddings, then minimize(); seeded random DFAs with <= 12 states / <= 4 letters; automata compiled "
+                "from the C01 families; per case: language of result = language of input (product fixpoint), no two "
+                "result states Nerode-equivalent, |result| = Myhill-Nerode index when all states are reachable, "
+                "initial/final/counter consistency; non-trivial = distinct record whose input has >= 2 states")
+    run.assumptions = list(AUT_ASSUME)
+    out, out2 = _dfa_traces(run, "C04")
+    nt = lambda r: r.get("op") == "minimize" and len(r["before"]["final"]) >= 2
+    need = {"shrinks": lambda r: r.get("op") == "minimize" and len(r["after"]["final"]) < len(r["before"]["final"]),
+            "already_minimal": lambda r: r.get("op") == "minimize" and len(r["after"]["final"]) == len(r["before"]["final"]) >= 2,
+            "all_final": lambda r: r.get("op") == "minimize" and all(r["before"]["final"]),
+            "none_final": lambda r: r.get("op") == "minimize" and not any(r["before"]["final"])}
+    run.validate("dfa_minimize", os.path.join(out, "dfa_minimize.ndjson"), "Trace_Automata", "Trace_Automata.cfg",
+                 ["C04:", "minimize", "compile/"], workers=workers(run), nontrivial=nt, need=need, timeout=3000)
+    run.validate("dfa_random_minimize", os.path.join(out2, "dfa_random_minimize.ndjson"), "Trace_Automata",
+                 "Trace_Automata.cfg", ["C04:", "minimize", "compile/"], workers=workers(run), nontrivial=nt,
+                 need={"compiled": lambda r: r.get("style") == 9, "big": lambda r: r.get("op") == "minimize" and len(r["before"]["final"]) >= 8},
+                 timeout=3000)
+    run.exhaustive = True
+    run.extra["exhaustive_scope"] = "all complete DFAs with <= 3 states over 2 letters (TLC-enumerated)"
+
+
+@check("C14")
+def c14(run):
+    run.rule = ("cases = the C04 automaton families; remove_unreachable_states: product fixpoint = same language and a "
+                "bijection between the reachable states of the input and ALL states of the result; on input and "
+                "result: combined_char_partition groups only characters with equal successors in every state, "
+                "pick_alphabet has one character per class in class order, every cell of compile_successors equals "
+                "next, edges/final_states/num_states/num_final_states agree with next; char_set_next on sets relative "
+                "to the ranges; non-trivial = distinct record whose input has an unreachable state or >= 3 states")
+    run.assumptions = list(AUT_ASSUME)
+    out, out2 = _dfa_traces(run, "C14")
+    nt = lambda r: r.get("op") == "prune" and (len(r["after"]["final"]) < len(r["before"]["final"]) or len(r["before"]["final"]) >= 3)
+    need = {"has_unreachable": lambda r: r.get("op") == "prune" and len(r["after"]["final"]) < len(r["before"]["final"]),
+            "all_reachable": lambda r: r.get("op") == "prune" and len(r["after"]["final"]) == len(r["before"]["final"]),
+            "with_default": lambda r: r.get("op") == "prune" and any(s["default"] for s in r["before"]["states"])}
+    run.validate("dfa_prune", os.path.join(out, "dfa_prune.ndjson"), "Trace_Automata", "Trace_Automata.cfg",
+                 ["C14:", "remove_unreachable"], workers=workers(run), nontrivial=nt, need=need, timeout=3000)
+    run.validate("dfa_random_prune", os.path.join(out2, "dfa_random_prune.ndjson"), "Trace_Automata",
+                 "Trace_Automata.cfg", ["C14:", "remove_unreachable", "compile/"], workers=workers(run), nontrivial=nt,
+                 need={"compiled": lambda r: r.get("style") == 9}, timeout=3000)
+    run.exhaustive = True
+    run.extra["exhaustive_scope"] = "all complete DFAs with <= 3 states over 2 letters (TLC-enumerated)"
+
+
 # ------------------------------------------------------------------------------------ strings
 
 def _u1_literals(run):
